@@ -13,7 +13,9 @@ for d in "$wt"/out/*/; do
   c="$d/confirm.txt"
   echo "--- $prop-$k: $(tr '\n' ' ' < "$c" | cut -c1-300)"
   if grep -q "apply=ok" "$c" && grep -q "demo_with_patch_rc=[1-9]" "$c" && grep -q "demo_without_patch_rc=0" "$c" && ! grep -q "FAILED" "$c"; then
-    dst=/verif/seeded/$prop-$((k + ${OFFSET:-0}))
+    # next free number for this property (never overwrite a stored change)
+    n=1; while [ -e "/verif/seeded/$prop-$n" ]; do n=$((n + 1)); done
+    dst=/verif/seeded/$prop-$n
     mkdir -p "$dst"
     cp "$d/patch.diff" "$d/meta.json" "$dst/" 2>/dev/null
     # the demonstration (demo.sh and whatever it needs), not the logs or build output
